@@ -269,3 +269,57 @@ pub fn run_hostile_dir(cfgs: &[String], out_dir: &Path) -> Value {
     out.finish();
     json!({"cfg":"hostiledir","mode":"hostile-directory","names":"ascii","b":1,"events":out.total_events,"segments":out.segments,"edges_run":n,"distinct_state_ops":n})
 }
+
+/// C13: every operation with the ROOT as its target (or destination) on every configuration: outcomes are
+/// unspecified (several of them remove or overwrite the root), but nothing may panic.
+pub fn run_rootops(cfgs: &[String], out_dir: &Path) -> Value {
+    let mut out = TraceOut::new(out_dir, "rootops");
+    let mut n = 0u64;
+    for cfg in cfgs {
+        let mut ops = vec![];
+        let mut rec = |op: &str, c: &str| ops.push(json!({"op":op,"c":c}));
+        let fresh = || {
+            let w = build(cfg);
+            let _ = w.root.join("a").and_then(|p| p.create_dir());
+            let _ = w.root.join("a/b").and_then(|p| p.create_file().map(|mut h| h.write_all(b"x").unwrap()));
+            let _ = w.root.join("f").and_then(|p| p.create_file().map(|mut h| h.write_all(b"y").unwrap()));
+            w
+        };
+        macro_rules! on_fresh {
+            ($name:expr, $f:expr) => {{
+                let w = fresh();
+                let root = w.root.clone();
+                let c = cls(guard(|| $f(&root)));
+                rec($name, c);
+                // the filesystem must stay usable without panics afterwards
+                rec(&format!("{} then exists", $name), cls(guard(|| root.exists())));
+                rec(&format!("{} then read_dir", $name), cls(guard(|| root.read_dir().map(|it| it.count()))));
+                rec(&format!("{} then create_file", $name), cls(guard(|| root.join("g").and_then(|p| p.create_file().map(|mut h| h.write_all(b"z"))))));
+            }};
+        }
+        on_fresh!("create_dir(root)", |r: &VfsPath| r.create_dir());
+        on_fresh!("create_dir_all(root)", |r: &VfsPath| r.create_dir_all());
+        on_fresh!("create_file(root)", |r: &VfsPath| r.create_file().map(|mut h| h.write_all(b"q")));
+        on_fresh!("append_file(root)", |r: &VfsPath| r.append_file().map(|mut h| h.write_all(b"q")));
+        on_fresh!("open_file(root)", |r: &VfsPath| r.open_file().map(|mut h| { let mut b = vec![]; let _ = h.read_to_end(&mut b); }));
+        on_fresh!("read_to_string(root)", |r: &VfsPath| r.read_to_string());
+        on_fresh!("remove_file(root)", |r: &VfsPath| r.remove_file());
+        on_fresh!("remove_dir(root)", |r: &VfsPath| r.remove_dir());
+        on_fresh!("set_mtime(root)", |r: &VfsPath| r.set_modification_time(tick(1)));
+        on_fresh!("set_ctime(root)", |r: &VfsPath| r.set_creation_time(tick(1)));
+        on_fresh!("copy_file(root->x)", |r: &VfsPath| r.copy_file(&r.join("x").unwrap()));
+        on_fresh!("move_file(root->x)", |r: &VfsPath| r.move_file(&r.join("x").unwrap()));
+        on_fresh!("copy_file(f->root)", |r: &VfsPath| r.join("f").unwrap().copy_file(r));
+        on_fresh!("move_file(f->root)", |r: &VfsPath| r.join("f").unwrap().move_file(r));
+        on_fresh!("copy_dir(a->root)", |r: &VfsPath| r.join("a").unwrap().copy_dir(r));
+        on_fresh!("move_dir(a->root)", |r: &VfsPath| r.join("a").unwrap().move_dir(r));
+        on_fresh!("remove_dir_all(root)", |r: &VfsPath| r.remove_dir_all());
+        on_fresh!("walk_dir(root)", |r: &VfsPath| r.walk_dir().map(|it| it.take(100).count()));
+        on_fresh!("metadata(root)", |r: &VfsPath| r.metadata());
+        out.begin(&json!({"ev":"hostile","kindtag":"rootops","cfg":cfg,"arg":"<operations with the root as target or destination>","prefix":[],
+            "join":{"c":"ok","path":""},"ops":ops,"ucalls":[],"outside_before":[],"outside_after":[],"leak":false,"shape":{"dotdot":false,"dslash":false,"abs":false}}));
+        n += 1;
+    }
+    out.finish();
+    json!({"cfg":"rootops","mode":"root-operations","names":"ascii","b":1,"events":out.total_events,"segments":out.segments,"edges_run":n * 19 * 4,"distinct_state_ops":n * 19})
+}
